@@ -11,11 +11,12 @@
 EXTENDS MatchSem, Json, IOUtils
 
 Rec == ndJsonDeserialize(IOEnv.TRACE)
-VARIABLE l
-Init == l \in 1..Len(Rec)
-Next == UNCHANGED l
+\* TLC does not cache Rec: the record of a line is carried in the state so the file is parsed once
+VARIABLES l, rec
+Init == LET R == Rec IN \E i \in 1..Len(R) : l = i /\ rec = R[i]
+Next == UNCHANGED <<l, rec>>
 
-Report(what, detail) == PrintT(<<"MISMATCH", ToJson([line |-> l, id |-> Rec[l].id, what |-> what, detail |-> detail])>>)
+Report(what, detail) == PrintT(<<"MISMATCH", ToJson([line |-> l, id |-> rec.id, what |-> what, detail |-> detail])>>)
 
 
 RECURSIVE AsSeq(_)
@@ -34,6 +35,6 @@ MatchChecks(r) ==
              IN  Report("match", [expected |-> Matches(rule, msg), got |-> r.got,
                                   devs |-> IF expl = {} THEN <<"none">> ELSE AsSeq(best)])
 
-LineOk == LET r == Rec[l] IN IF r.ev = "Match" THEN MatchChecks(r) ELSE TRUE
+LineOk == LET r == rec IN IF r.ev = "Match" THEN MatchChecks(r) ELSE TRUE
 Inv == LineOk \/ TRUE
 =============================================================================
